@@ -29,6 +29,8 @@ def run(ctx):
     rendered = 0
     elems = 0
     for i in range(n):
+        if len(res.violations) >= 12:
+            break
         ast = talgen.FIXED[i] if i < len(talgen.FIXED) else [talgen.gen(rnd) for _ in range(rnd.randint(1, 3))]
         tpl = "".join(talgen.ser(x) for x in ast)
         g = talgen.ctxvals()
@@ -70,6 +72,8 @@ def run(ctx):
     import metalgen
     mlines, mcases = [], []
     for i in range(ctx.n(150, 2500)):
+        if len(res.violations) >= 12:
+            break
         lib, page = metalgen.gen_case(rnd)
         lib2 = metalgen.second_library()
         ls = "".join(metalgen.ser(x) for x in lib)
@@ -117,6 +121,53 @@ def run(ctx):
             res.disagree("C17.metal-machine", {"library": ls, "page": ps}, str(mout)[:400], rout[:400])
         if dout != rout:
             res.disagree("C17.metal-denote", {"library": ls, "page": ps}, str(dout)[:400], rout[:400])
+    # ---- templates included through `structure`: a table of compiled templates in the context, pages that include them ----
+    import includegen
+    ilines, icases = [], []
+    for i in range(ctx.n(150, 2500)):
+        if len(res.violations) >= 12:
+            break        # (the engine is broken on this kind of page: every further case costs its time limit)
+        tpls, page = includegen.FIXED[i] if i < len(includegen.FIXED) else includegen.gen_case(rnd)
+        g = talgen.ctxvals()
+        src = {k: includegen.ser_all(v) for k, v in tpls.items()}
+        ps = includegen.ser_all(page)
+        rpl = {"include": True, "templates": src, "page": ps}
+        try:
+            rout, rctx = includegen.real_expand(tpls, page, g)
+        except KeyError:
+            res.count("out-of-domain:repeat-over-mapping")
+            continue
+        except Exception as e:  # noqa
+            res.violation("C17:real-raises:" + type(e).__name__, "expanding a page that includes compiled templates raised", {"templates": src, "page": ps},
+                          observed=repr(e), required="an expansion", replay=rpl)
+            continue
+        res.evaluations += 1
+        res.count("include:sites", ps.count("structure tpl"))
+        if ps.count("structure tpl") >= 2 or "tal:repeat" in ps:
+            res.nontrivial.add(ps + repr(sorted(src.items())))
+        flat = includegen.inline(page, tpls)
+        try:
+            oout, _oc = talgen.oracle_expand(flat, g, False)
+        except Exception as e:  # noqa
+            oout = "ORACLE-EXC " + repr(e)
+        if oout != rout:
+            res.violation("C17:include-semantics", "a page including compiled templates through `structure` does not expand to the included templates' nodes in place",
+                          {"templates": src, "page": ps}, observed=rout[:500], required=oout[:500], replay=rpl)
+        if rctx.locals or rctx.localStack or rctx.repeatStack:
+            res.violation("C17:context-leftover", "the context is not restored after an inclusion", {"templates": src, "page": ps},
+                          observed={"locals": dict(rctx.locals), "stack": len(rctx.localStack)}, required="empty", replay=rpl)
+        ilines.append("\t".join(["talinclude", "F", talgen.enc_val(g), includegen.enc_tpls(tpls), talgen.enc_nodes(talgen.nf(page))]))
+        icases.append((src, ps, rout))
+    iouts = ctx.driver.run(ilines)
+    for (src, ps, rout), o in zip(icases, iouts):
+        res.evaluations += 1
+        f = o.split("\t")
+        mout = f[0] if f[0] == "MACHINE-STUCK" else dec_str(f[0])
+        dout = dec_str(f[1]) if len(f) > 1 else None
+        if mout != rout:
+            res.disagree("C17.include-machine", {"templates": src, "page": ps}, str(mout)[:400], rout[:400])
+        if dout != rout:
+            res.disagree("C17.include-denote", {"templates": src, "page": ps}, str(dout)[:400], rout[:400])
     outs = ctx.driver.run(lines)
     for (kind, tpl, impl), o in zip(cases, outs):
         res.evaluations += 1
@@ -176,6 +227,20 @@ def _nested_repeat(ast, inside=False):
 
 def replay(data):
     rp = data["violation"]["replay"]
+    if rp.get("include"):
+        print("templates:", rp["templates"])
+        print("page:", rp["page"])
+        from simpletal import simpleTALES
+        import io
+        ctx = simpleTALES.Context(allowPythonPath=0)
+        for k, v in talgen.ctxvals().items():
+            ctx.addGlobal(k, v)
+        for k, v in rp["templates"].items():
+            ctx.addGlobal(k, talgen.real_compile(v)[0])
+        o = io.StringIO()
+        talgen.real_compile(rp["page"])[0].expand(ctx, o)
+        print("expansion:", o.getvalue())
+        return 0
     if rp.get("metal"):
         import metalgen
         print("library:", rp["library"])
